@@ -191,6 +191,7 @@ type pendingRT struct {
 	ent float32
 	how string
 	enc EncRes
+	raw spg.Indices // the very slice MakeIndices returned (not a copy): it must still be valid when it is used later
 }
 
 var rtBatch []pendingRT
@@ -198,7 +199,12 @@ var rtBatch []pendingRT
 // emitRT encodes now and decodes later: indices of a whole batch are produced before any of them is used,
 // so that an index must not depend on MakeIndices calls made after it.
 func emitRT(em *Emitter, ts spg.Tokens, ent float32, how string) {
-	rtBatch = append(rtBatch, pendingRT{ts, ent, how, encode(ts)})
+	p := pendingRT{ts: ts, ent: ent, how: how, enc: encode(ts)}
+	func() {
+		defer func() { recover() }()
+		p.raw, _ = ts.MakeIndices()
+	}()
+	rtBatch = append(rtBatch, p)
 	if len(rtBatch) >= 6 {
 		flushRT(em)
 	}
@@ -206,6 +212,14 @@ func emitRT(em *Emitter, ts spg.Tokens, ent float32, how string) {
 
 func flushRT(em *Emitter) {
 	for _, p := range rtBatch {
+		// what the stored index says NOW, after the other indices of the batch were made
+		if p.enc.Kind == "ok" {
+			now := []int{}
+			for _, b := range p.raw {
+				now = append(now, int(b))
+			}
+			p.enc.Idx = now
+		}
 		emitRTNow(em, p.ts, p.ent, p.how, p.enc)
 	}
 	rtBatch = nil
